@@ -87,10 +87,12 @@ fn spell(rng: &mut Rng, mode: Mode, parent: &str, target: &str) -> String {
 
 fn atom(rng: &mut Rng, form: Form, own_markers: &[String]) -> String {
     match form {
-        Form::Pre => match weighted(rng, &[5, 2, 3]) {
+        Form::Pre => match weighted(rng, &[10, 4, 5, 1, 1]) {
             0 => rng.pick(MACROS).to_string(),
             1 => rng.pick(PLAIN).to_string(),
-            _ => rng.range(1, 9).to_string(),
+            2 => rng.range(1, 9).to_string(),
+            3 => ["0x10", "007", "0x0a", "00", "0x1f", "010"][rng.below(6) as usize].to_string(),
+            _ => FUNCS[rng.below(FUNCS.len() as u64) as usize].0.to_string(),
         },
         Form::Compile => match weighted(rng, &[5, 4, if own_markers.is_empty() { 0 } else { 1 }]) {
             0 => rng.pick(MACROS).to_string(),
@@ -114,7 +116,7 @@ fn invocation(rng: &mut Rng, max_index: usize, leaves: &[String], depth: u32) ->
     let n = if rng.chance(1, 30) { arity + 1 } else { arity };
     let mut args: Vec<String> = Vec::new();
     for _ in 0..n {
-        let a = match weighted(rng, &[6, if depth < 2 { 3 } else { 0 }, 2, 1]) {
+        let a = match weighted(rng, &[6, if depth < 2 { 3 } else { 0 }, 2, 2]) {
             0 => rng.pick(leaves).clone(),
             1 => invocation(rng, max_index, leaves, depth + 1),
             2 => format!("( {} , {} )", rng.pick(leaves), rng.pick(leaves)),
@@ -123,7 +125,19 @@ fn invocation(rng: &mut Rng, max_index: usize, leaves: &[String], depth: u32) ->
         args.push(a);
     }
     let sp = if rng.chance(1, 4) { " " } else { "" };
-    format!("{name}{sp}({})", args.join(if rng.chance(1, 2) { ", " } else { "," }))
+    let second = if depth == 0 && rng.chance(1, 4) {
+        match rng.below(3) {
+            0 => "()".to_string(),
+            1 => format!("({})", rng.pick(leaves)),
+            _ => format!(" ({}, {})", rng.pick(leaves), rng.pick(leaves)),
+        }
+    } else {
+        String::new()
+    };
+    format!(
+        "{name}{sp}({}){second}",
+        args.join(if rng.chance(1, 2) { ", " } else { "," })
+    )
 }
 
 /// `#define FNk(params) body`: the body refers to its parameters, ints, plain identifiers,
@@ -146,7 +160,15 @@ fn function_define(rng: &mut Rng) -> String {
         };
         body.push(e);
     }
-    format!("#define {name}({}) {}", params.join(","), body.join(" + "))
+    let mut text = body.join(" + ");
+    if k > 0 && rng.chance(1, 4) {
+        // a replacement that ends in the name of a function-like macro: the invocation is
+        // completed by a "(" that follows the use
+        let (lower, _) = FUNCS[rng.below(k as u64) as usize];
+        let tail = if rng.chance(1, 2) && arity > 0 { " a" } else { "" };
+        text = format!("{text} + {lower}{tail}");
+    }
+    format!("#define {name}({}) {}", params.join(","), text)
 }
 
 fn condition(rng: &mut Rng) -> String {
@@ -464,10 +486,10 @@ pub fn generate(rng: &mut Rng, mode: Mode, form: Form) -> Graph {
                 }
                 8 => {
                     counter += 1;
-                    let r = if rng.chance(1, 2) {
-                        ["u", "v", "w"][rng.below(3) as usize].to_string()
-                    } else {
-                        rng.range(1, 9).to_string()
+                    let r = match rng.below(5) {
+                        0 | 1 => ["u", "v", "w"][rng.below(3) as usize].to_string(),
+                        2 | 3 => rng.range(1, 9).to_string(),
+                        _ => ["0x10", "007", "0x0a", "00", "0x1f"][rng.below(5) as usize].to_string(),
                     };
                     let l = ["u", "v", "w"][rng.below(3) as usize];
                     lines.push(format!("m_{i}_{counter} CAT({l},{r}) ;"));
